@@ -12,13 +12,13 @@ const FOL: [Op; 4] = [Op::PushBack, Op::PushFront, Op::PopFront, Op::Clear];
 
 pub fn ctor<const N: usize, P: Pad>(ctx: &mut Ctx) {
     let _ = items_off::<N, P>();
-    if ctx.mine(hash64(&format!("ctor-empty|{}", N))) {
+    if ctx.mine_next() {
         empty_ctor_cases::<N, P>(ctx);
     }
     for_m!(M, {
         if M <= 2 * N + 1 {
             let key = hash64(&format!("ctor-array|{}|{}|{}", N, P::NAME, M));
-            if ctx.mine(key) && ctx.begin_case(|| format!("ctor N={} T={} from_array M={}", N, P::NAME, M)) {
+            if ctx.mine_next() && ctx.begin_case(|| format!("ctor N={} T={} from_array M={}", N, P::NAME, M)) {
                 ledger_reset();
                 from_array_case::<N, M, P>(None, ctx, &FOL);
                 ctx.distinct.insert(key);
@@ -27,7 +27,7 @@ pub fn ctor<const N: usize, P: Pad>(ctx: &mut Ctx) {
     });
     for k in 0..=2 * N + 1 {
         let key = hash64(&format!("ctor-iter|{}|{}|{}", N, P::NAME, k));
-        if ctx.mine(key) && ctx.begin_case(|| format!("ctor N={} T={} from_iter items={}", N, P::NAME, k)) {
+        if ctx.mine_next() && ctx.begin_case(|| format!("ctor N={} T={} from_iter items={}", N, P::NAME, k)) {
             ledger_reset();
             from_iter_case::<N, P>(k, None, ctx, &FOL);
             ctx.distinct.insert(key);
@@ -43,10 +43,10 @@ pub fn ctor<const N: usize, P: Pad>(ctx: &mut Ctx) {
                 if N == 0 && route != 0 && route != 3 {
                     continue;
                 }
-                let key = hash64(&format!("ctor-copy|{}|{}|{}|{}|{}", N, P::NAME, start, len, route));
-                if !ctx.mine(key) {
+                if !ctx.mine_next() {
                     continue;
                 }
+                let key = hash64(&format!("ctor-copy|{}|{}|{}|{}|{}", N, P::NAME, start, len, route));
                 if !ctx.begin_case(|| format!("ctor N={} T={} route={} start={} len={} clone/to_vec/collect", N, P::NAME, route_name(route), start, len)) {
                     continue;
                 }
@@ -89,10 +89,10 @@ pub fn ctor<const N: usize, P: Pad>(ctx: &mut Ctx) {
                 vc = env.vc;
             }
             // clone_from over every destination layout x every source layout
-            let key = hash64(&format!("ctor-clone_from|{}|{}|{}|{}", N, P::NAME, start, len));
-            if !ctx.mine(key) {
+            if !ctx.mine_next() {
                 continue;
             }
+            let key = hash64(&format!("ctor-clone_from|{}|{}|{}|{}", N, P::NAME, start, len));
             for s_start in 0..starts {
                 for s_len in 0..=N {
                     for s_route in [0u8, 1, 2] {
